@@ -173,10 +173,10 @@ func (sns SimpleNodes) reduce(limit int, xPercent float64, pmbrss int64, pmbnp P
 		// more than allowed nodes remaining
 
 		// find the range of nodes with equal stakes, start (s), end (e)
-		s, e := 0, len(newNodes)
+		s, e := -1, len(newNodes)
 		stake := newNodes[y-1].TotalStaked
 		for i, sn := range newNodes {
-			if s == 0 && sn.TotalStaked == stake {
+			if s < 0 && sn.TotalStaked == stake {
 				s = i
 			} else if sn.TotalStaked < stake {
 				e = i
